@@ -475,6 +475,18 @@ func (c *Ctx) lookupLocalName(name string, env *Env) *Val {
 		return c.vals[last]
 	}
 	if len(uniq) > 1 {
+		// a loop-carried variable of an enclosing loop: its phi is the value in scope
+		var phi ssa.Value
+		np := 0
+		for v := range uniq {
+			if p, ok := v.(*ssa.Phi); ok && p.Comment == name {
+				phi = v
+				np++
+			}
+		}
+		if np == 1 {
+			return c.vals[phi]
+		}
 		c.specErr("name %q is ambiguous here (%d SSA values)", name, len(uniq))
 	}
 	return nil
